@@ -312,34 +312,21 @@ theorem C17_clean_reads_first_line_only : Facts.cleanReadSites = [("firstLine", 
 example : (FileInfo.ofContent "user.shootnew_doc.go"
       "package p\n// Code generated by \"shoot new -type=User\"; DO NOT EDIT. (v0.7.0)\n").firstLine = "package p" := by decide
 
-/-! ### finding region F_glob_dir: the `[dir]` argument is read as a glob pattern by Clean -/
+/-! ### formerly finding region F_glob_dir (repaired in /repo a3d970c): the `[dir]` argument is a literal path -/
 
-theorem C17_cleanGlob_literal (c : Config) : c.cleanGlob .literal = some c.clean := by
-  unfold Config.cleanGlob
-  split
-  · rename_i h
-    have h' : (c.cleanActive && !c.outs.isEmpty) = false := by
-      cases hx : (c.cleanActive && !c.outs.isEmpty) with
-      | false => rfl
-      | true => simp [hx] at h
-    rw [C17_clean_inactive c h']
-  · rfl
+/-- every path the clean-up removes is an entry OF the package directory, whatever characters the `[dir]` argument holds: Clean lists
+    that one directory and matches the pattern against base names (glob metacharacters in the path - `/work/w?/mod/p` - used to make
+    it delete the generated files of OTHER directories the pattern matched) -/
+theorem C17_clean_removes_inside_pkgdir (c : Config) : removedInside c c.clean = true := by
+  simp only [removedInside, Config.clean, List.all_eq_true, List.mem_map]
+  rintro r ⟨n, _, rfl⟩
+  rw [String.toList_append]
+  exact List.isPrefixOf_iff_prefix.mpr (List.prefix_append _ _)
 
-def wGlobCfg : Config :=
-  { cmd := .new, pkgPrefix := "w?/mod/p/", outs := [("a.shootnew.go", [[1]], "42")], cleanActive := true, genfile := "a.shootnew.go",
-    listing := [ { name := "a.shootnew.go", firstLine := "// Code generated by \"shoot new -type=* /abs/w?/mod/p\"; DO NOT EDIT. (v0.7.0)" },
-                 { name := "a.shootnew.user.go", firstLine := "// Code generated by \"shoot new -type=User\"; DO NOT EDIT. (v0.7.0)" } ] }
-
-def wGlobOther : List (String × List FileInfo) :=
-  [ ("w1/mod/p/", [ { name := "a.shootnew.user.go", firstLine := "// Code generated by \"shoot new -type=User\"; DO NOT EDIT. (v0.7.0)" } ]) ]
-
-/-- `shoot new -type=* /abs/w?/mod/p`: the pattern `/abs/w?/mod/p/*.shootnew*.go` also matches the files of `/abs/w1/mod/p`, and the
-    per-type output THERE - not superseded by anything - is removed; with an unclosed `[` in the path Clean fails after the writes -/
-theorem C17_F_glob_dir_witness :
-    regionGlob wGlobCfg (.wild true wGlobOther) = .F_glob_dir ∧
-    wGlobCfg.cleanGlob (.wild true wGlobOther) = some ["w?/mod/p/a.shootnew.user.go", "w1/mod/p/a.shootnew.user.go"] ∧
-    removedInside wGlobCfg ["w?/mod/p/a.shootnew.user.go", "w1/mod/p/a.shootnew.user.go"] = false ∧
-    wGlobCfg.cleanGlob .bad = none := by decide
+example :
+    ({ cmd := .new, pkgPrefix := "w?/mod/p/", outs := [("a.shootnew.go", [[1]], "42")], cleanActive := true, genfile := "a.shootnew.go",
+       listing := [ { name := "a.shootnew.user.go", firstLine := "// Code generated by \"shoot new -type=User\"; DO NOT EDIT. (v0.7.0)" } ] } : Config).clean
+      = ["w?/mod/p/a.shootnew.user.go"] := by decide
 
 /-! ### the recognisers Clean relies on, against declarative specifications (tied to filepath.Match / regexp by the
 in-process differential of tools/props/c17.py through the verif hook `shoot.VerifClean`) -/
